@@ -220,17 +220,23 @@ class Result(object):
         self.out_of_model = 0
         self.streams = []
         self.hist = {}
+        self.aborted = False
 
 
 def evaluate(prop, op, inputs, res, stream_name, keep_samples=2):
     """run impl + driver on a batch of inputs; record"""
-    if not inputs:
+    if not inputs or res.aborted:
         return
     obs = []
     lines = []
     for inp in inputs:
         try:
             o = prop.observe(op, inp)
+        except protocol.StopStreams as e:
+            log('[%s] streams cut short: %s' % (getattr(prop, 'ID', '?'), e))
+            res.aborted = True
+            inputs = inputs[:len(obs)]
+            break
         except Exception as e:  # an adapter must catch what the property observes; anything else is infra
             raise Infra('observation adapter crashed on %r: %s\n%s' % (inp, e, traceback.format_exc()))
         obs.append(o)
@@ -296,7 +302,7 @@ def run_stream(prop, stream, res, limit_fail=20000):
         if not batch:
             break
         evaluate(prop, op, batch, res, name)
-        if len(res.holds_fail) > limit_fail:
+        if len(res.holds_fail) > limit_fail or res.aborted:
             break
     res.streams.append({'name': name, 'op': op, 'cases': res.evaluations - n0,
                         'exhaustive': bool(stream.get('exhaustive')), 'wall_s': round(time.time() - t0, 2)})
@@ -340,15 +346,16 @@ def shrink_candidates(v):
                 yield v[:i] + [y] + v[i + 1:]
 
 
-def shrink(prop, op, inp, still_fails, budget=1500):
+def shrink(prop, op, inp, still_fails, budget=1500, seconds=60.0):
     cur = inp
     improved = True
     steps = 0
-    while improved and steps < budget:
+    t_end = time.time() + seconds
+    while improved and steps < budget and time.time() < t_end:
         improved = False
         for cand in shrink_candidates(cur):
             steps += 1
-            if steps >= budget:
+            if steps >= budget or time.time() > t_end:
                 break
             try:
                 if hasattr(prop, 'normalize'):
@@ -443,6 +450,8 @@ def run_check(pid, tier, seed, replay=None):
     escalate = bool(undischarged)
     for stream in prop.streams(tier, rng):
         run_stream(prop, stream, res)
+        if res.aborted:
+            break
     if (res.disagree or escalate) and tier == 'quick' and not res.holds_fail:
         # search: something no longer checks; run the thorough-size streams looking for a failing input
         log('[%s] obligation/correspondence broken: escalating to thorough streams to search for a failing input' % pid)
@@ -475,6 +484,7 @@ def run_check(pid, tier, seed, replay=None):
     try:
         seen_min = set()
         known_hits = {}
+        t_classify_end = time.time() + 300
         for op, inp, o, m, sname in res.holds_fail[:200]:
             def match_known(i, ob, op=op):
                 for k in known_open:
@@ -497,7 +507,8 @@ def run_check(pid, tier, seed, replay=None):
                 known_hits[pre['id']] += 1
                 continue
             t_s = time.time()
-            small = shrink(prop, op, inp, still, budget=150 if pre is not None else 1200)
+            small = shrink(prop, op, inp, still, budget=150 if pre is not None else 1200,
+                           seconds=max(0.0, min(60.0, t_classify_end - time.time())))
             if time.time() - t_s > 2:
                 log('[%s] shrunk one failing input (%s) in %.1fs' % (
                     pid, 'known class' if pre is not None else 'new', time.time() - t_s))
